@@ -1,16 +1,540 @@
 package codecsim
 
 import (
+	"bytes"
+	"crypto/sha256"
 	"encoding/json"
+	"fmt"
+	"io"
+	"sort"
 	"testing"
 
+	ref "verif/ref/lzhuf"
 	"verif/sim/core"
 )
 
-func infoC08() core.Info { return core.Info{} }
+// StreamSpec says how one valid base stream (or one raw byte string) is made.
+//
+//	lib     : the library's own Writer, fed with the partition Part
+//	greedy  : reference encoder, canonical greedy parse
+//	random  : reference encoder, seed-chosen parse (Seed, LitPct, Alias)
+//	literal : reference encoder, literals only
+//	raw     : Raw as it is (random bytes, crafted headers)
+type StreamSpec struct {
+	Enc    string `json:"enc"`
+	Input  []Seg  `json:"input,omitempty"`
+	Part   Part   `json:"part,omitempty"`
+	Seed   int64  `json:"seed,omitempty"`
+	LitPct int    `json:"lit_pct,omitempty"`
+	Alias  bool   `json:"alias,omitempty"`
+	Raw    B64    `json:"raw,omitempty"`
+}
 
-func genC08(tier string, r *core.Rand, run int) any { return nil }
+// Exec is one narrowed execution: exactly these bytes, read this way.
+// ErrAt = k+1 makes the underlying reader fail with a non-EOF error at offset
+// k (0: no error). Undamaged marks a stream that came straight from an encoder.
+type Exec struct {
+	Kind      string `json:"kind,omitempty"` // label only
+	Data      B64    `json:"data"`
+	CRC       bool   `json:"crc"`
+	ErrAt     int    `json:"err_at,omitempty"`
+	Bufs      []int  `json:"bufs,omitempty"`
+	Src       []int  `json:"src,omitempty"`
+	Undamaged bool   `json:"undamaged,omitempty"`
+}
+
+type C08Plan struct {
+	CRC        bool         `json:"crc"`
+	Streams    []StreamSpec `json:"streams,omitempty"`
+	Bufs       []int        `json:"bufs,omitempty"`
+	Src        []int        `json:"src,omitempty"`
+	SampleSeed int64        `json:"sample_seed,omitempty"`
+	AllBelow   int          `json:"all_below,omitempty"` // enumerate every prefix / error offset for streams up to this length
+	Samples    int          `json:"samples,omitempty"`   // sample size used above the exhaustive limits
+	Only       *Exec        `json:"only,omitempty"`      // narrowed replay: execute exactly this
+}
+
+const maxSamples = 4096
+
+func buildStream(rep reportFn, sp StreamSpec, crc bool) (stream, input []byte, ok bool) {
+	switch sp.Enc {
+	case "raw":
+		return sp.Raw, nil, true
+	case "greedy":
+		input = expand(sp.Input)
+		return ref.EncodeGreedy(input, crc), input, true
+	case "random":
+		input = expand(sp.Input)
+		pct := sp.LitPct
+		if pct < 0 {
+			pct = 0
+		}
+		if pct > 100 {
+			pct = 100
+		}
+		return ref.EncodeRandom(input, crc, uint64(sp.Seed), ref.RandomOptions{LiteralPct: pct, Alias: sp.Alias, Exhaustive: len(input) <= 96}), input, true
+	case "literal":
+		input = expand(sp.Input)
+		return ref.EncodeLiteral(input, crc), input, true
+	default: // lib
+		input = expand(sp.Input)
+		snk := &sink{}
+		werr, cerr, ok := compress(rep, input, crc, sp.Part, snk, newExecLog())
+		if !ok || werr != nil || cerr != nil {
+			return nil, input, false
+		}
+		return snk.buf, input, true
+	}
+}
+
+func regimeOf(v ref.Verdict, ioerr bool) string {
+	r := ""
+	switch {
+	case !v.HeaderOK:
+		r = "no-header"
+	case v.Declared < 0:
+		r = "negative-size"
+	case v.CutMatch:
+		r = "match-overruns-size"
+	case v.Exhausted:
+		r = "input-ends-early"
+	case v.Trailing > 0:
+		r = "trailing-bytes"
+	case !v.CRCOK:
+		r = "crc-mismatch"
+	default:
+		r = "valid-stream"
+	}
+	_ = ioerr // an injected reader error only shortens what the decoder can see; the regime is that of the visible bytes
+	return r
+}
+
+type c08Run struct {
+	prop     string
+	sim      *core.Sim
+	out      *core.Outcome
+	bySig    map[string]*core.Violation
+	bySigLen map[string]int
+	sigCount map[string]int
+	hashes   map[string]struct{}
+	n        int
+}
+
+// judge executes one (possibly damaged) stream against the library and the
+// reference decoder and applies C08's oracles.
+func (c *c08Run) judge(ex Exec) {
+	c.n++
+	c.out.Evals++
+	data := []byte(ex.Data)
+	errAt := -1
+	if ex.ErrAt > 0 && ex.ErrAt-1 <= len(data) {
+		errAt = ex.ErrAt - 1
+	}
+	visible := data
+	if errAt >= 0 {
+		visible = data[:errAt]
+	}
+	canon, v := ref.Decode(visible, ex.CRC)
+	regime := regimeOf(v, errAt >= 0)
+	declared := 0
+	if v.HeaderOK && v.Declared > 0 {
+		declared = int(v.Declared)
+	}
+
+	var viols []core.Violation
+	rep := func(oracle, detail, format string, args ...any) {
+		viols = append(viols, core.Violation{Property: c.prop, Signature: c.prop + "/" + oracle + "/" + detail,
+			Message: fmt.Sprintf("[%s, %d-byte stream %s, crc=%v, err_at=%d, bufs=%v] ", ex.Kind, len(data), abbreviate(data), ex.CRC, errAt, ex.Bufs) + fmt.Sprintf(format, args...)})
+	}
+	lg := newExecLog()
+	lg.add("stream %x crc=%v errAt=%d", sha256.Sum256(data), ex.CRC, errAt)
+	res := readAll(rep, data, ex.CRC, ReadSched{Bufs: ex.Bufs, Src: ex.Src}, errAt, 4, len(canon)+len(data)+64, lg)
+	got := res.out
+
+	if res.srcFired {
+		c.sim.Fault("reader-error")
+	}
+	if res.stuck {
+		if res.zeroRuns > 4 {
+			rep("termination", "zero-progress/"+regime, "Read returned (0,nil) %d times in a row for a non-empty buffer after delivering %d bytes (declared size %d, canonical decoding %d bytes); reading was stopped by the harness", res.zeroRuns, len(got), v.Declared, len(canon))
+		} else {
+			rep("termination", "read-budget/"+regime, "no end of stream or error after %d Read calls (budget = output+input+64); %d bytes delivered", res.calls, len(got))
+		}
+	}
+	if len(got) > declared {
+		rep("bounded-output", "more-than-declared/"+regime, "%d bytes delivered although the header declares %d", len(got), v.Declared)
+	}
+	n := len(got)
+	if n > len(canon) {
+		n = len(canon)
+		c.sim.Probe("tentative-bytes-past-canonical-end")
+	}
+	if d := firstDiff(got[:n], canon[:n]); d >= 0 {
+		rep("delivered-bytes", "differ-from-canonical", "byte %d delivered by Read is %#x, the canonical decoding has %#x", d, got[d], canon[d])
+	}
+	closedOK := !res.panicked && res.newErr == nil && res.closeErr == nil
+	if closedOK {
+		vOK := v.OK
+		if !vOK && v.HeaderOK && v.SizeOK && ex.CRC && v.Trailing > 0 {
+			// Trailing bytes after the last needed bit: how far a streaming
+			// decoder reads ahead is its own business, so the CRC may cover
+			// any extent between "all that was needed" and "everything".
+			stored := uint16(visible[0]) | uint16(visible[1])<<8
+			for e := v.Needed; e <= len(visible) && !vOK; e++ {
+				vOK = ref.CRC16(visible[2:e]) == stored
+			}
+			if vOK {
+				c.sim.Probe("crc-accepted-over-partial-extent")
+			}
+		}
+		switch {
+		case !vOK:
+			rep("close-verdict", "nil-on-bad-stream/"+regime, "Reader.Close()==nil although the reference verdict is %+v", v)
+		case !bytes.Equal(got, canon):
+			rep("close-verdict", "nil-with-wrong-output/"+regime, "Reader.Close()==nil but the %d bytes read are not the canonical decoding (%d bytes, first difference at %d)", len(got), len(canon), firstDiff(got, canon))
+		}
+	}
+	if ex.Undamaged && v.OK && v.Trailing == 0 && errAt < 0 && !res.panicked {
+		if res.newErr != nil || res.readErr != io.EOF || res.closeErr != nil {
+			rep("undamaged-stream", "rejected", "a valid, undamaged stream was not accepted: NewReader err=%v, Read ended with %v, Close()=%v", res.newErr, res.readErr, res.closeErr)
+		}
+	}
+
+	nontrivial := v.HeaderOK && res.newErr == nil && res.calls > 0
+	h := lg.sum()
+	if nontrivial {
+		c.out.NonTrivial = true
+		c.hashes[h] = struct{}{}
+		c.sim.Probe("regime/" + regime)
+	}
+	c.sim.Logf("x %s len=%d errAt=%d out=%d canon=%d new=%s read=%s close=%s v=%d h=%s", ex.Kind, len(data), errAt, len(got), len(canon), errStr(res.newErr), errStr(res.readErr), errStr(res.closeErr), len(viols), h)
+
+	for i := range viols {
+		vi := viols[i]
+		c.sigCount[vi.Signature]++
+		if old, ok := c.bySigLen[vi.Signature]; ok && old <= len(data) {
+			continue // keep the smallest stream per signature
+		}
+		vi.Replay, _ = json.Marshal(C08Plan{CRC: ex.CRC, Only: &ex})
+		c.bySig[vi.Signature] = &vi
+		c.bySigLen[vi.Signature] = len(data)
+	}
+}
+
+func rotate(t []int, k int) []int {
+	if len(t) == 0 {
+		return nil
+	}
+	k %= len(t)
+	return append(append([]int{}, t[k:]...), t[:k]...)
+}
+
+func putSize(s []byte, crc bool, size int32) {
+	off := 0
+	if crc {
+		off = 2
+	}
+	if len(s) < off+4 {
+		return
+	}
+	u := uint32(size)
+	s[off], s[off+1], s[off+2], s[off+3] = byte(u), byte(u>>8), byte(u>>16), byte(u>>24)
+}
+
+func fixCRC(s []byte) {
+	if len(s) < 2 {
+		return
+	}
+	c := ref.CRC16(s[2:])
+	s[0], s[1] = byte(c), byte(c>>8)
+}
+
+func clone(b []byte) []byte { return append([]byte(nil), b...) }
+
+// offsets returns every offset in [0,n) when n <= all, otherwise the ones
+// near both ends and the header plus a seeded sample.
+func offsets(n, all, samples int, rng *ref.RNG) []int {
+	if n <= all {
+		o := make([]int, n)
+		for i := range o {
+			o[i] = i
+		}
+		return o
+	}
+	set := map[int]struct{}{}
+	for i := 0; i < 40 && i < n; i++ {
+		set[i] = struct{}{}
+		set[n-1-i] = struct{}{}
+	}
+	for i := 0; i < samples; i++ {
+		set[rng.Intn(n)] = struct{}{}
+	}
+	o := make([]int, 0, len(set))
+	for k := range set {
+		o = append(o, k)
+	}
+	sort.Ints(o)
+	return o
+}
+
+// enumerate runs every fault of the plan against base stream si.
+func (c *c08Run) enumerate(pl *C08Plan, si int, stream []byte, undamagedOK bool, others [][]byte, rng *ref.RNG) {
+	crc := pl.CRC
+	hdr := 4
+	if crc {
+		hdr = 6
+	}
+	all := pl.AllBelow
+	if all <= 0 {
+		all = 2048
+	}
+	if all > 1<<16 {
+		all = 1 << 16
+	}
+	samples := pl.Samples
+	if samples <= 0 {
+		samples = 256
+	}
+	if samples > maxSamples {
+		samples = maxSamples
+	}
+	// keep the work per base stream bounded: about 48 MB of decoding
+	if per := len(stream) * 3; per > 0 && samples > 48<<20/per {
+		samples = 48 << 20 / per
+		if samples < 12 {
+			samples = 12
+		}
+	}
+	run := func(kind string, data []byte, errAt int, undamaged bool) {
+		c.judge(Exec{Kind: kind, Data: data, CRC: crc, ErrAt: errAt, Bufs: rotate(pl.Bufs, c.n), Src: rotate(pl.Src, c.n), Undamaged: undamaged})
+	}
+	tag := fmt.Sprintf("s%d/", si)
+
+	run(tag+"undamaged", stream, 0, undamagedOK)
+
+	// EOF after every prefix length
+	for _, k := range offsets(len(stream), all, samples, rng) {
+		run(tag+"eof", stream[:k], 0, false)
+		c.sim.Fault("truncate")
+	}
+	// reader error at offset k (k = len: error instead of EOF)
+	ioAll := all / 4
+	for _, k := range offsets(len(stream)+1, ioAll, samples/4+1, rng) {
+		run(tag+"ioerr", stream, k+1, false)
+	}
+	// single-bit flips
+	var bits []int
+	if len(stream) <= 512 {
+		bits = offsets(len(stream)*8, len(stream)*8, 0, rng)
+	} else {
+		set := map[int]struct{}{}
+		for b := 0; b < (hdr+16)*8 && b < len(stream)*8; b++ {
+			set[b] = struct{}{}
+		}
+		for b := len(stream)*8 - 64; b < len(stream)*8; b++ {
+			set[b] = struct{}{}
+		}
+		for i := 0; i < samples*2; i++ {
+			set[rng.Intn(len(stream)*8)] = struct{}{}
+		}
+		for b := range set {
+			bits = append(bits, b)
+		}
+		sort.Ints(bits)
+	}
+	for _, b := range bits {
+		d := clone(stream)
+		d[b>>3] ^= 0x80 >> uint(b&7)
+		run(tag+"bitflip", d, 0, false)
+		c.sim.Fault("bitflip")
+	}
+	if len(stream) >= hdr {
+		// header edits: declared size
+		off := hdr - 4
+		trueSize := int32(uint32(stream[off]) | uint32(stream[off+1])<<8 | uint32(stream[off+2])<<16 | uint32(stream[off+3])<<24)
+		sizes := []int32{-1, 0, trueSize - 1, trueSize + 1, 1<<31 - 1, -1 << 31, -trueSize, -2, trueSize - 2, trueSize - 3, trueSize - 59, trueSize - 60, trueSize + 60, trueSize / 2, 1, trueSize + 4096}
+		seen := map[int32]bool{trueSize: true}
+		for _, sz := range sizes {
+			if seen[sz] {
+				continue
+			}
+			seen[sz] = true
+			d := clone(stream)
+			putSize(d, crc, sz)
+			run(tag+"size-edit", d, 0, false)
+			c.sim.Fault("size-edit")
+			if crc {
+				d2 := clone(d)
+				fixCRC(d2)
+				run(tag+"size-edit-crc-fixed", d2, 0, false)
+				c.sim.Fault("size-edit")
+			}
+		}
+		if crc {
+			for _, f := range []func(d []byte){
+				func(d []byte) { d[0] ^= 1 },
+				func(d []byte) { d[1] ^= 0x80 },
+				func(d []byte) { d[0], d[1] = 0, 0 },
+				func(d []byte) { d[0], d[1] = d[1], d[0] },
+				func(d []byte) { d[0], d[1] = 0xff, 0xff },
+			} {
+				d := clone(stream)
+				f(d)
+				if !bytes.Equal(d, stream) {
+					run(tag+"crc-edit", d, 0, false)
+					c.sim.Fault("crc-edit")
+				}
+			}
+		}
+		// trailing garbage and a dropped / doubled byte
+		for i := 0; i < 3; i++ {
+			d := clone(stream)
+			for k, n := 0, 1+rng.Intn(8); k < n; k++ {
+				d = append(d, byte(rng.Intn(256)))
+			}
+			if crc && i > 0 {
+				fixCRC(d)
+			}
+			run(tag+"trailing-bytes", d, 0, false)
+			c.sim.Fault("trailing-bytes")
+		}
+		for i := 0; i < 8 && len(stream) > hdr; i++ {
+			k := hdr + rng.Intn(len(stream)-hdr)
+			d := append(clone(stream[:k]), stream[k+1:]...)
+			if i%2 == 1 {
+				d = append(append(clone(stream[:k]), stream[k]), stream[k:]...)
+			}
+			if crc && i >= 4 {
+				fixCRC(d)
+			}
+			run(tag+"byte-drop-dup", d, 0, false)
+			c.sim.Fault("byte-drop-dup")
+		}
+	}
+	// splices with the other streams of the plan
+	for oi, other := range others {
+		if len(other) == 0 || len(stream) == 0 {
+			continue
+		}
+		pairs := [][2]int{{hdr, hdr}, {len(stream), 0}, {hdr, 0}, {len(stream) / 2, len(other) / 2}}
+		for i := 0; i < 24; i++ {
+			pairs = append(pairs, [2]int{rng.Intn(len(stream) + 1), rng.Intn(len(other) + 1)})
+		}
+		for pi, p := range pairs {
+			i, j := p[0], p[1]
+			if i > len(stream) {
+				i = len(stream)
+			}
+			if j > len(other) {
+				j = len(other)
+			}
+			d := append(clone(stream[:i]), other[j:]...)
+			if bytes.Equal(d, stream) {
+				continue
+			}
+			if crc && pi%3 == 2 {
+				fixCRC(d)
+			}
+			run(fmt.Sprintf("%ssplice-s%d", tag, oi), d, 0, false)
+			c.sim.Fault("splice")
+		}
+	}
+}
+
+type c08Sample struct {
+	CRC       bool
+	Streams   []string
+	Execs     int
+	Violating map[string]int `json:",omitempty"`
+}
 
 func execC08(t *testing.T, prop string, raw json.RawMessage, trace bool) core.Outcome {
-	return core.Outcome{}
+	var pl C08Plan
+	var out core.Outcome
+	if err := json.Unmarshal(raw, &pl); err != nil {
+		out.Violate(prop, "harness", "bad-plan", fmt.Sprint("unusable plan: ", err))
+		return out
+	}
+	c := &c08Run{prop: prop, out: &out, bySig: map[string]*core.Violation{}, bySigLen: map[string]int{}, sigCount: map[string]int{}, hashes: map[string]struct{}{}}
+	smp := c08Sample{CRC: pl.CRC}
+	_, pv, stack := core.Bubble(t, trace, func(sim *core.Sim) {
+		c.sim = sim
+		if pl.Only != nil {
+			ex := *pl.Only
+			smp.Streams = []string{fmt.Sprintf("only:%s len=%d", ex.Kind, len(ex.Data))}
+			c.judge(ex)
+		} else {
+			rep := simReporter(sim, prop)
+			rng := ref.NewRNG(uint64(pl.SampleSeed))
+			var streams [][]byte
+			var valid []bool
+			for i, sp := range pl.Streams {
+				if i >= 4 {
+					break
+				}
+				s, in, ok := buildStream(rep, sp, pl.CRC)
+				if !ok {
+					sim.Probe("library-writer-failed")
+					continue
+				}
+				good := false
+				if sp.Enc != "raw" {
+					d, v := ref.Decode(s, pl.CRC)
+					good = v.OK && v.Trailing == 0 && bytes.Equal(d, in)
+					if !good {
+						// C06's business when it is the library's writer; a harness defect otherwise
+						if sp.Enc == "lib" || sp.Enc == "" {
+							sim.Probe("library-stream-invalid-per-reference")
+						} else {
+							sim.Violate(prop, "harness", "reference-encoder-invalid", "reference encoder %s produced a stream its own decoder rejects: %+v", sp.Enc, v)
+						}
+					}
+					if v.Rebuilds > 0 {
+						sim.Probe("tree-rebuild-reached")
+					}
+				}
+				streams = append(streams, s)
+				valid = append(valid, good)
+				smp.Streams = append(smp.Streams, fmt.Sprintf("%s in=%d stream=%d", sp.Enc, len(in), len(s)))
+				sim.Probe("stream-from/" + sp.Enc)
+			}
+			for i, s := range streams {
+				var others [][]byte
+				for j, o := range streams {
+					if j != i {
+						others = append(others, o)
+					}
+				}
+				c.enumerate(&pl, i, s, valid[i], others, rng)
+			}
+		}
+		smp.Execs = c.n
+		if len(c.sigCount) > 0 {
+			smp.Violating = c.sigCount
+		}
+		out.Sample = smp
+		sim.FillOutcome(&out)
+	})
+	if pv != nil {
+		out.Violate(prop, "harness", "bubble-panic", fmt.Sprintf("%v\n%s", pv, stack))
+	}
+	for _, sig := range core.SortedKeys(c.bySig) {
+		out.Violations = append(out.Violations, *c.bySig[sig])
+	}
+	if out.Evals > 1 {
+		for _, h := range core.SortedKeys(c.hashes) {
+			out.Hashes = append(out.Hashes, h)
+			if len(out.Hashes) >= 256 {
+				break
+			}
+		}
+	}
+	if out.Probes == nil {
+		out.Probes = map[string]int{}
+	}
+	out.Probes["distinct-nontrivial-executions-summed-per-plan"] += len(c.hashes)
+	for _, sig := range core.SortedKeys(c.sigCount) {
+		out.Probes["violating-executions"] += c.sigCount[sig]
+	}
+	return out
 }
